@@ -23,10 +23,24 @@ BLOCKS = {
     "BaseProject.__allocate@placement": {
         "host": "BaseProject.__allocate", "loop_iter": "ready_and_working_task_list",
         "if_test": "task.target_component is not None", "params": ["self", "task", "target_workplace_id_list"]},
+    # everything __allocate computes before its loop over the tasks: which tasks, in which order, which free workers
+    "BaseProject.__allocate@candidates": {
+        "host": "BaseProject.__allocate", "loop_iter": "ready_and_working_task_list", "prefix": True,
+        "params": ["self", "task_priority_rule"],
+        "exports": ["ready_and_working_task_list", "free_worker_list", "target_workplace_id_list"]},
+    # the whole allocation statement of the task loop, guard included (the two branches are also verified on their own below)
+    "BaseProject.__allocate@allocation": {
+        "host": "BaseProject.__allocate", "loop_iter": "ready_and_working_task_list",
+        "if_contains": "task.need_facility", "params": ["self", "task", "free_worker_list"]},
+    # the branch that gives facility/worker pairs to a task that needs a facility
+    "BaseProject.__allocate@facilities": {
+        "host": "BaseProject.__allocate", "loop_iter": "ready_and_working_task_list",
+        "if_contains": "task.need_facility", "path": [("task.need_facility", "body")],
+        "params": ["self", "task", "free_worker_list"]},
     # the branch that gives workers to a task that needs no facility
     "BaseProject.__allocate@workers": {
         "host": "BaseProject.__allocate", "loop_iter": "ready_and_working_task_list",
-        "if_test": "not task.auto_task", "path": [("task.need_facility", "orelse")],
+        "if_contains": "task.need_facility", "path": [("task.need_facility", "orelse")],
         "params": ["self", "task", "free_worker_list"]},
 }
 
@@ -115,15 +129,28 @@ class Source:
         defcls, host = self.find_method(cls, hostname)
         if host is None:
             raise KeyError(spec["host"])
+        if spec.get("prefix"):
+            # the statements of the host that run before its loop over `loop_iter` (what the loop is going to iterate over)
+            idx = [i for i, st in enumerate(host.body) if isinstance(st, ast.For) and ast.unparse(st.iter) == spec["loop_iter"]]
+            if len(idx) != 1:
+                raise KeyError("block %s: expected exactly one top-level loop over %s in %s" % (qual, spec["loop_iter"], spec["host"]))
+            stmts = [st for st in host.body[:idx[0]]
+                     if not (isinstance(st, ast.Expr) and isinstance(st.value, ast.Constant) and isinstance(st.value.value, str))]
+            return self._wrap_block(qual, spec, defcls, host, stmts)
         found = []
         for n in ast.walk(host):
             if isinstance(n, ast.For) and ast.unparse(n.iter) == spec["loop_iter"]:
                 for st in n.body:
-                    if isinstance(st, ast.If) and ast.unparse(st.test) == spec["if_test"]:
+                    if not isinstance(st, ast.If):
+                        continue
+                    if "if_test" in spec and ast.unparse(st.test) == spec["if_test"]:
+                        found.append((n, st))
+                    elif "if_contains" in spec and any(isinstance(x, ast.If) and ast.unparse(x.test) == spec["if_contains"] for x in st.body):
+                        # selected by what it contains, whatever its own test is (the test is then a matter for the contract)
                         found.append((n, st))
         if len(found) != 1:
             raise KeyError("block %s: expected exactly one `if %s` in the loop over %s of %s, found %d"
-                           % (qual, spec["if_test"], spec["loop_iter"], spec["host"], len(found)))
+                           % (qual, spec.get("if_test") or ("... containing `if %s`" % spec.get("if_contains")), spec["loop_iter"], spec["host"], len(found)))
         loop, stmt = found[0]
         stmts = [stmt]
         for test, branch in spec.get("path", []):
@@ -133,6 +160,9 @@ class Source:
             stmts = list(getattr(inner[0], branch))
             if not stmts:
                 raise KeyError("block %s: empty branch %s of `if %s`" % (qual, branch, test))
+        return self._wrap_block(qual, spec, defcls, host, stmts)
+
+    def _wrap_block(self, qual, spec, defcls, host, stmts):
         stmt = ast.Module(body=stmts, type_ignores=[])      # only walked below; the function body is `stmts`
         # free local variables of the block = names it loads that the host assigns (parameters, loop targets, locals)
         host_locals = {a.arg for a in host.args.args}
